@@ -135,17 +135,29 @@ func (ex *Exec) check(st *State, goal *Term, kind string, n ast.Node, site strin
 	if c := ex.siteSeen[key]; c > 1 {
 		name += fmt.Sprintf("#%d", c)
 	}
-	o := &Obligation{Name: name, Kind: kind, Func: ex.top.Short, Pos: ex.pos(n), Site: site, Goal: goal, Facts: append([]*Term(nil), st.pc...), Bounded: ex.bounded}
-	if goal.isTrue() {
-		o.Status = "trivial"
+	// a conjunction is discharged conjunct by conjunct (smaller, more stable queries)
+	parts := []*Term{goal}
+	if goal.Op == "and" && !strings.HasPrefix(kind, "safety") {
+		parts = goal.Args
 	}
-	ex.obls = append(ex.obls, o)
+	facts := append([]*Term(nil), st.pc...)
+	for k, g := range parts {
+		nm := name
+		if len(parts) > 1 {
+			nm = fmt.Sprintf("%s.%d", name, k)
+		}
+		o := &Obligation{Name: nm, Kind: kind, Func: ex.top.Short, Pos: ex.pos(n), Site: site, Goal: g, Facts: facts, Bounded: ex.bounded}
+		if g.isTrue() {
+			o.Status = "trivial"
+		}
+		ex.obls = append(ex.obls, o)
+	}
 	if _, _, fp, _ := featureScan([]*Term{goal}); fp && !strings.HasPrefix(kind, "loop") {
 		// redundant once proved; the portfolio may leave such float lemmas out of later queries
-		defFacts[goal] = true
+		lemmaFacts[goal] = true
 		if goal.Op == "and" {
 			for _, a := range goal.Args {
-				defFacts[a] = true
+				lemmaFacts[a] = true
 			}
 		}
 	}
@@ -1404,6 +1416,7 @@ func (ex *Exec) counterInvariant(s *ast.ForStmt, st *State, w *writes) func(*Sta
 // definitional equations of float-valued locals: v == <float expression>. They are ordinary facts, but the
 // portfolio may drop them (an opaque v is often all a proof needs, and float multipliers are expensive to bit-blast).
 var defFacts = map[*Term]bool{}
+var lemmaFacts = map[*Term]bool{}
 
 func (ex *Exec) nameFloat(v Value, name string, st *State) Value {
 	if ex.spec > 0 || len(v.L) != 1 {
